@@ -30,6 +30,9 @@ def run(ctx) -> None:
         "topological propagation rule. Decides these structural necessary conditions; it does not compare the expanded "
         "dataflow with an independent expansion.")
     ctx.rule("C03.R1-anchored-rewrite", "reference rewriting during replication is escaped and boundary-anchored")
+    ctx.rule("C03.R6-chain-safe-order", "references are rewritten one key after the other on the same string and the inserted text "
+             "(<producer><index>) can be the spelling of another replicated producer (Run -> Run1): the loop over the keys must "
+             "run longest-first, so that inserted text is never rewritten again")
     ctx.rule("C03.R2-naming-agreement", "replica component names and replica references use the same format and index; "
                                         "indices run over range(count); variables['replica'] is the index")
     ctx.rule("C03.R3-apply-replicate", "a reference is treated as replicated only if its producer has a positive propagated count "
@@ -48,6 +51,8 @@ def run(ctx) -> None:
 
     # ---------------- R1 -------------------------------------------------------------------------------
     n_sites = 0
+    n_chain = 0
+    seen_loops = set()
     for fn, label in ((rep, "a replicated producer's reference"), (agg, "an aggregated producer's reference")):
         for s in sub.find_sites(fn, include_nested=True):
             if sub.is_literal_key(s):
@@ -56,7 +61,27 @@ def run(ctx) -> None:
             n_sites += 1
             owner = source.enclosing_def(s.call) or fn
             check_site(ctx, "C03.R1-anchored-rewrite", owner, s, label)
+            # R6: chained rewriting (the result is the subject of the next key's substitution)
+            stmt = source.stmt_of(s.call)
+            subj = s.subject
+            chained = isinstance(stmt, ast.Assign) and isinstance(subj, ast.Name) and any(
+                isinstance(t, ast.Name) and t.id == subj.id for t in stmt.targets)
+            co = sub.chain_order(owner, s)
+            if chained and co is not None:
+                order, loop = co
+                if id(loop) in seen_loops:
+                    continue
+                seen_loops.add(id(loop))
+                n_chain += 1
+                ctx.ob("C03.R6-chain-safe-order", loop, order == "longest-first",
+                       "%s: the keys are rewritten longest-first (sorted by len, reverse)" % label if order == "longest-first" else
+                       "%s: the keys are rewritten in the order of '%s' on one string: the text inserted for a shorter name "
+                       "(Run:ref -> stage0.Run1:ref for replica 1) is the spelling of another replicated producer (Run1) and is "
+                       "rewritten again (-> Run11 / Run10 Run11), so a copy consumes from the wrong producer"
+                       % (label, short(loop.iter, 50)),
+                       construct="for ... in %s: chained rewriting order" % short(loop.iter, 60))
     ctx.floor("C03.R1-anchored-rewrite", n_sites, 2, "reference rewriting sites in replica/aggregate compilation")
+    ctx.floor("C03.R6-chain-safe-order", n_chain, 2, "loops that rewrite a string key after key")
 
     # ---------------- R5 -------------------------------------------------------------------------------
     # the relative spelling '<producer>:<method>' denotes a producer in the consumer's OWN stage; it may be registered
